@@ -15,6 +15,11 @@ def replay(prop: str, path: str) -> int:
                 print("  ", f.clause, "|", f.kind)
             return 1 if r.status == "failed" else (0 if r.status == "proved" else 2)
         from . import native
+        if doc.get("backend") == "rustc":
+            native.probe_send_sync(run)
+            hit = any("purity.send_sync" in v.get("obligations", []) for v in run.violations)
+            print("replay:", "the probe still does not compile: the types are not Send + Sync" if hit else "not reproduced")
+            return 1 if hit else 0
         if doc.get("backend") == "kani":
             import subprocess
             binp = native.build(run)
